@@ -299,3 +299,57 @@ theorem same_commits_same_values (bs : Blocks) (swf : StoreWF3 bs) (s₁ s₂ : 
      mergedIn_of_same_commits bs swf s₂ s₁ h₂ h₁ (fun t => (same t).symm) b⟩)
 
 end Defra.Crdt
+
+namespace Defra.Crdt
+
+/-! ### a local write is the merge of its own commit -/
+
+theorem loadComposites_merged_parent (bs : Blocks) (heads : List Nat) (n p : Nat) (acc : List Block × List Nat)
+    (hp : ∀ pb, bs.get? p = some pb → isMerged bs heads p pb.height = true) :
+    (loadComposites bs heads (n + 1) p acc).1 = acc.1 := by
+  obtain ⟨coll, visited⟩ := acc
+  unfold loadComposites
+  by_cases hv : visited.contains p = true
+  · simp only [hv, if_true]
+  · simp only [hv, Bool.false_eq_true, if_false]
+    cases hg : bs.get? p with
+    | none => rfl
+    | some pb => simp only [hp pb hg, if_true]
+
+theorem foldl_merged_parents (bs : Blocks) (heads : List Nat) (n : Nat) : ∀ (ps : List Nat) (acc : List Block × List Nat),
+    (∀ p ∈ ps, ∀ pb, bs.get? p = some pb → isMerged bs heads p pb.height = true) →
+    (ps.foldl (fun acc p => loadComposites bs heads (n + 1) p acc) acc).1 = acc.1 := by
+  intro ps
+  induction ps with
+  | nil => intro acc _; rfl
+  | cons p t ih =>
+    intro acc h
+    simp only [List.foldl_cons]
+    rw [ih _ (fun q hq => h q (List.mem_cons_of_mem _ hq))]
+    exact loadComposites_merged_parent bs heads n p acc (h p List.mem_cons_self)
+
+/-- a commit whose parents are all merged and which is not merged itself — a local write on top of the current
+    heads — is processed by `mergeDoc` exactly as `processBlock` processes it -/
+theorem mergeDoc_of_parents_merged (cx : Ctx) (r : Replica) (c : Block) (hc : cx.blocks.get? c.id = some c)
+    (hn : isMerged cx.blocks (r.doc c.doc).heads c.id c.height = false)
+    (hp : ∀ p ∈ c.parents, ∀ pb, cx.blocks.get? p = some pb →
+      isMerged cx.blocks (r.doc c.doc).heads p pb.height = true) :
+    mergeDoc cx r c = processBlock cx 4 r c := by
+  have hlen : ∃ m, cx.blocks.length = m + 1 := by
+    have hmem := get?_mem hc
+    cases h : cx.blocks with
+    | nil => rw [h] at hmem; cases hmem
+    | cons x t => exact ⟨t.length, rfl⟩
+  obtain ⟨m, hm⟩ := hlen
+  have hcoll : (loadComposites cx.blocks (r.doc c.doc).heads (cx.blocks.length + 1) c.id ([], [])).1 = [c] := by
+    rw [hm]
+    unfold loadComposites
+    simp only [List.contains_nil, Bool.false_eq_true, if_false, hc, hn]
+    rw [foldl_merged_parents cx.blocks _ m c.parents _ hp]
+  have hmd : mergeDoc cx r c =
+      (sortByHeight (loadComposites cx.blocks (r.doc c.doc).heads (cx.blocks.length + 1) c.id ([], [])).1).foldl
+        (fun r b => processBlock cx 4 r b) r := rfl
+  rw [hmd, hcoll]
+  rfl
+
+end Defra.Crdt
